@@ -894,6 +894,8 @@ fn check_geodesics(c: &GeoCase, rec: &mut Rec) -> CaseResult {
     // against quadrature: Vincenty's series are of order n^4 (measured 0.086 a n^4, 0.13 n^4 s for short lines)
     let tol_ref = |s: f64| 2e-7 * e.sc + 0.6 * n4 * s.min(a);
     let mut op_in: Vec<Coor4D> = vec![];
+    // (lat1, lon1, az, s) deg/m, trait results (lon2, lat2, az2), (az1, az2, s), reduced length, cross-track tolerance
+    let mut op_lines: Vec<([f64; 4], [f64; 3], [f64; 3], f64, f64)> = vec![];
     for (i, ln) in c.lines.iter().enumerate() {
         let (lon1, lat1) = (ln.lon1.0, ln.lat1.0);
         // conditioning of azimuths: the meridian direction turns by d/(a cos lat) when the point moves by d
@@ -937,6 +939,34 @@ fn check_geodesics(c: &GeoCase, rec: &mut Rec) -> CaseResult {
                 if w.over("there and back: position (m)", dh, tol_r + pole_term) {
                     vfail!("geodesic-there-and-back", "{} [{what}] from ({lon1:?}, {lat1:?}) to ({:?}, {:?}) and back along the reversed azimuth {:?} ends at ({:?}, {:?}): {dh:e} m from the start", e.label, p2[0], p2[1], p2[2] + PI, home[0], home[1]);
                 }
+                // 2 pi periodicity in longitude: the same two points given with the end longitude
+                // normalised to (-pi, pi] (raw difference beyond +-pi when the line crosses the
+                // antimeridian) or with either longitude shifted by a full turn
+                let lon2n = wrap_pi(p2[0]);
+                for (l1, l2) in [(lon1, lon2n), (lon1, p2[0] + 2.0 * PI), (lon1, p2[0] - 2.0 * PI), (lon1 + 2.0 * PI, p2[0]), (lon1 - 2.0 * PI, lon2n)] {
+                    if l1 == lon1 && l2 == p2[0] {
+                        continue;
+                    }
+                    let wrapped = (l2 - l1).abs() > PI;
+                    rec.count(if wrapped { "inverse problems with raw |dlon| > 180 deg" } else { "inverse problems with shifted longitudes, |dlon| <= 180 deg" }, 1);
+                    let whatw = format!("{what}; same points as P1=({l1:?}, {lat1:?}) P2=({l2:?}, {:?}), raw dlon={:?}", p2[1], l2 - l1);
+                    let v = g.inv((l1, lat1), (l2, p2[1]), &whatw)?;
+                    let da = wrap_pi(v[0] - iv[0]).abs().max(wrap_pi(v[1] - iv[1]).abs());
+                    if w.over("longitude periodicity: distance (m)", (v[2] - iv[2]).abs(), tol_c) || w.over("longitude periodicity: azimuths x reduced length (m)", da * m12, tol_x) {
+                        vfail!("geodesic-longitude-periodicity", "{} [{whatw}]: geodesic_inv gives azimuths ({:?}, {:?}) s={:?}, but for P1=({lon1:?}, {lat1:?}) P2=({:?}, {:?}) (same points, raw dlon={:?}) azimuths ({:?}, {:?}) s={:?}", e.label, v[0], v[1], v[2], p2[0], p2[1], p2[0] - lon1, iv[0], iv[1], iv[2]);
+                    }
+                    // and with the end points exchanged
+                    let vr = g.inv((l2, p2[1]), (l1, lat1), &whatw)?;
+                    let da = wrap_pi(vr[0] - vi[0]).abs().max(wrap_pi(vr[1] - vi[1]).abs());
+                    if w.over("longitude periodicity: distance (m)", (vr[2] - vi[2]).abs(), tol_c) || w.over("longitude periodicity: azimuths x reduced length (m)", da * m12, tol_x) {
+                        vfail!("geodesic-longitude-periodicity", "{} [{whatw}]: geodesic_inv(P2,P1) gives azimuths ({:?}, {:?}) s={:?}, but with the raw longitudes ({:?}, {:?}) s={:?}", e.label, vr[0], vr[1], vr[2], vi[0], vi[1], vi[2]);
+                    }
+                }
+                // the direct problem from a shifted start longitude
+                let p2s = g.fwd(lon1 - 2.0 * PI, lat1, az, s, &what)?;
+                if w.over("longitude periodicity: direct end point (m)", chord(&e.r, (p2[0], p2[1]), (p2s[0], p2s[1])).max(wrap_pi(p2s[2] - p2[2]).abs() * m12), tol_r + pole_term) {
+                    vfail!("geodesic-longitude-periodicity", "{} [{what}]: geodesic_fwd from lon {lon1:?} ends at ({:?}, {:?}) az {:?}, from lon {:?} at ({:?}, {:?}) az {:?}", e.label, p2[0], p2[1], p2[2], lon1 - 2.0 * PI, p2s[0], p2s[1], p2s[2]);
+                }
                 // sphere: great circle
                 if e.r.f == 0.0 {
                     let (rl, rp, ra) = sphere_direct(lon1, lat1, az, sigma);
@@ -952,6 +982,11 @@ fn check_geodesics(c: &GeoCase, rec: &mut Rec) -> CaseResult {
                     }
                 }
                 op_in.push(Coor4D::raw(lat1.to_degrees(), lon1.to_degrees(), p2[1].to_degrees(), p2[0].to_degrees()));
+                if lon2n != p2[0] {
+                    // the antimeridian was crossed: also with the end longitude in (-180, 180]
+                    op_in.push(Coor4D::raw(lat1.to_degrees(), lon1.to_degrees(), p2[1].to_degrees(), lon2n.to_degrees()));
+                }
+                op_lines.push(([lat1, lon1, az, s], p2, iv, m12, tol_x));
                 rec.class(if e.r.f == 0.0 { "geodesic: on a sphere" } else if s / e.sc < 10.0 { "geodesic: shorter than 10 m" } else if s / e.sc > 1.0e7 { "geodesic: longer than 10 000 km" } else { "geodesic: generic" });
             }
             1 => {
@@ -969,6 +1004,15 @@ fn check_geodesics(c: &GeoCase, rec: &mut Rec) -> CaseResult {
                 let what = format!("line {i}: meridional lat2={lat2:?} over the pole: {over}");
                 let iv = g.inv((lon1, lat1), (lon2, lat2), &what)?;
                 let tol = tol_ref(s);
+                if over {
+                    // the opposite meridian given in (-pi, pi] and a turn further on
+                    for l2 in [wrap_pi(lon2), lon2 - 2.0 * PI, lon2 + 2.0 * PI] {
+                        let v = g.inv((lon1, lat1), (l2, lat2), &what)?;
+                        if w.over("longitude periodicity: distance (m)", (v[2] - iv[2]).abs(), tol_c) {
+                            vfail!("geodesic-longitude-periodicity", "{} [{what}]: geodesic_inv(({lon1:?}, {lat1:?}), ({l2:?}, {lat2:?})) s={:?} but with end longitude {lon2:?} (same point) s={:?}", e.label, v[2], iv[2]);
+                        }
+                    }
+                }
                 if w.over("meridional: distance vs quadrature (m)", (iv[2] - s).abs(), tol) {
                     vfail!("geodesic-meridional-distance", "{} [{what}]: geodesic_inv(({lon1:?}, {lat1:?}), ({lon2:?}, {lat2:?})) s={:?}, meridian arc by quadrature {s:?}: {:e} m off (tolerance {tol:e})", e.label, iv[2], (iv[2] - s).abs());
                 }
@@ -1030,6 +1074,39 @@ fn check_geodesics(c: &GeoCase, rec: &mut Rec) -> CaseResult {
             }
         }
         rec.count("operator evaluations", 2 * op_in.len() as u64);
+
+        // the plain operator, both modes, with longitudes as they are, normalised to (-180, 180] and shifted by 360 deg
+        let def = format!("geodesic ellps={text}");
+        let op = instantiate(&mut ctx, &def)?;
+        for (inp, p2, iv, m12, tol_x) in &op_lines {
+            let [lat1, lon1, az, s] = *inp;
+            let tol_x = 2.0 * tol_x;
+            // inverse mode: (lat1, lon1, lat2, lon2) deg -> (az1, az2, s, return azimuth)
+            let lon2s = [p2[0], wrap_pi(p2[0]), p2[0] + 2.0 * PI, wrap_pi(p2[0]) - 2.0 * PI];
+            let mut data: Vec<Coor4D> = lon2s.iter().map(|l2| Coor4D::raw(lat1.to_degrees(), lon1.to_degrees(), p2[1].to_degrees(), l2.to_degrees())).collect();
+            data.push(Coor4D::raw(lat1.to_degrees(), (lon1 + 2.0 * PI).to_degrees(), p2[1].to_degrees(), wrap_pi(p2[0]).to_degrees()));
+            let input = data.clone();
+            apply(&ctx, op, false, &def, &mut data)?;
+            for (i, d) in input.iter().zip(&data) {
+                let da = wrap_pi(d[0].to_radians() - iv[0]).abs().max(wrap_pi(d[1].to_radians() - iv[1]).abs()).max(wrap_pi(d[3].to_radians() - iv[1] - PI).abs());
+                let bad = !d.0.iter().all(|v| v.is_finite());
+                if bad || w.over("geodesic operator inverse vs trait: distance (m)", (d[2] - iv[2]).abs(), tol_c) || w.over("geodesic operator inverse vs trait: azimuths x reduced length (m)", da * m12, tol_x) {
+                    vfail!(if (i[3] - i[1]).abs() > 180.0 { "geodesic-operator-longitude-periodicity" } else { "geodesic-operator-inverse" },
+                        "'{def}' inverse of (lat1, lon1, lat2, lon2) = {} (raw dlon {:?} deg) gives {}; geodesic_inv for the same points with longitudes ({lon1:?}, {:?}) rad gives azimuths ({:?}, {:?}) s={:?}", fmt_c4(i), i[3] - i[1], fmt_c4(d), p2[0], iv[0], iv[1], iv[2]);
+                }
+            }
+            // forward mode: (lat1, lon1, az, s) -> (lat2, lon2, ..)
+            let mut data: Vec<Coor4D> = [0.0, 360.0, -360.0].iter().map(|sh| Coor4D::raw(lat1.to_degrees(), lon1.to_degrees() + sh, az.to_degrees(), s)).collect();
+            let input = data.clone();
+            apply(&ctx, op, true, &def, &mut data)?;
+            for (i, d) in input.iter().zip(&data) {
+                let dist = if d.0.iter().all(|v| v.is_finite()) { chord(&e.r, (p2[0], p2[1]), (d[1].to_radians(), d[0].to_radians())) } else { f64::NAN };
+                if w.over("geodesic operator forward vs trait: end point (m)", dist, tol_c + tol_x) {
+                    vfail!("geodesic-operator-forward", "'{def}' forward of (lat, lon, az, s) = {} gives {}; geodesic_fwd gives (lon2, lat2) = ({:?}, {:?}) rad", fmt_c4(i), fmt_c4(d), p2[0], p2[1]);
+                }
+            }
+        }
+        rec.count("operator evaluations", 8 * op_lines.len() as u64);
     }
     w.flush(rec);
     rec.class(ell_class(&c.ell));
@@ -1131,6 +1208,7 @@ fn lat_strategy() -> impl Strategy<Value = f64> {
 fn lon_strategy() -> impl Strategy<Value = f64> {
     prop_oneof![
         8 => -PI..PI,
+        3 => (any::<bool>(), 0.0f64..0.1).prop_map(|(s, u)| (PI - u) * if s { 1.0 } else { -1.0 }),
         1 => Just(0.0f64),
         1 => Just(PI),
         1 => Just(-PI),
